@@ -538,7 +538,7 @@ def rule_no_history(F, ev, R, config, rule="R-NO-HISTORY"):
                 if rv["k"] in ("ref", "rawptr", "discr"):
                     places.append(rv["place"])
                 for o in ([rv.get("op")] if rv.get("op") else []) + rv.get("ops", []) + [rv.get("a"), rv.get("b")]:
-                    if o and o.get("k") in ("copy", "move"):
+                    if isinstance(o, dict) and o.get("k") in ("copy", "move"):
                         places.append(o["place"])
                 for p in places:
                     if any(e["k"] == "field" and e.get("owner") == ADT_PROBLEM and e["name"] == pr["cache"] for e in p["proj"]):
